@@ -96,6 +96,11 @@ CHECKS = {
          "All schedules with at most 2 (thorough 3) deviations of: two readers + a poster, a reader + two posters, two logins being shown the agreement, a reader + a login, for board/agreement sizes that need 1..26 locked Read calls: every served text must be one the store held in full, all posts kept newest first in protocol format, every user notified, the file equal to the served board at quiescence; plus a sequential sweep of sizes up to 65,000 bytes.",
          "Three clients; scheduling points at sync/atomic/channel/connection/file-system operations.",
          "DESIGN.md §5 C19"),
+ "C01": ("model_checking",
+         "explicit-state search of every encoder's drain state machine (state = encoder incl. private read cursor, transition = Read with buffer size b) to a fixed point, over bounded-exhaustively generated objects, against an independent reference codec; decoders applied to the reference bytes",
+         "~250 objects (thorough more) of 12 serialisable types built through the library's constructors with part lengths at every prefix boundary; for each the drain machine is explored for every buffer size 1..n+1 (n <= 96) or around every power-of-two boundary: every transition must return the next bytes of the reference encoding, make progress and end with io.EOF — by induction this decides all buffer-size sequences and termination; size prefixes are compared with the bytes that follow; Transaction/Field/User/FileNameWithInfo/InfoFork/FilePath/ResumeData/ServerRecord/handshake/preamble/news-path/int decoders and the transaction scanner are applied to reference bytes with trailing garbage.",
+         "Objects = what the library's constructors/decoders can produce; reference codec written from the protocol document; very long encodings use boundary buffer sizes only.",
+         "DESIGN.md §5 C01"),
 }
 NOT_YET = "check not built yet in this session (see DESIGN.md §11 build order)"
 
